@@ -36,8 +36,11 @@ func optCfg(mask int, ps int, mlockOK bool) apix.Cfg {
 }
 
 var c13Txs = [][]apix.Op{
-	{beginW, op("mkb", nil, "p", ""), {K: "fill", P: P("p"), Key: "k", V: "M", N: 9}, op("mkb", P("p"), "q", ""), op("put", P("p", "q"), "a", "s"), {K: "seqset", P: P("p"), N: 4}, commit},
-	{beginW, op("put", P("p"), "k003", "X"), op("del", P("p"), "k005", ""), op("del", P("p"), "k006", ""), op("mkb", nil, "q", ""), {K: "fill", P: P("q"), Key: "g", V: "M", N: 5}, commit},
+	{beginW, op("mkb", nil, "p", ""), {K: "fill", P: P("p"), Key: "k", V: "M", N: 9}, op("mkb", P("p"), "q", ""), {K: "fill", P: P("p", "q"), Key: "n", V: "M", N: 6}, op("put", P("p", "q"), "a", "s"), {K: "seqset", P: P("p"), N: 4}, commit},
+	// only the nested bucket /p/q and a new top-level bucket are touched (the parent /p is merely traversed), and the
+	// transaction outgrows a 32 KiB map: with InitialMmapSize 0 the commit remaps while nodes of /p/q are unspilled
+	{beginW, {K: "fill", P: P("p", "q"), Key: "g", V: "X", N: 14}, op("del", P("p", "q"), "n002", ""), op("mkb", nil, "q", ""), {K: "fill", P: P("q"), Key: "g", V: "M", N: 5}, commit,
+		beginW, op("put", P("p"), "k003", "X"), op("del", P("p"), "k005", ""), op("del", P("p"), "k006", ""), commit},
 	{beginW, op("delb", P("p"), "q", ""), {K: "drain", P: P("q")}, op("put", P("p"), "k003", "s"), {K: "seqnext", P: P("p")}, commit,
 		beginW, op("put", P("q"), "z", "M"), rollback},
 }
@@ -241,7 +244,7 @@ func C13(tier string) int {
 	_ = deadline
 	cov := map[string]interface{}{
 		"states": runs, "transitions": ops, "traces_validated_against_impl": ops, "evaluations": runs, "distinct_nontrivial": runs,
-		"rule":          "exhaustive enumeration of option schedules for one history with two reopen points (create + fill + nested bucket + sequence; reopen; overwrite with an overflow value, deletes, second bucket; reopen; nested bucket delete, drain, sequence, a rolled-back transaction; the first transaction after each reopen fails at its first I/O call): every assignment of {freelist backend, NoFreelistSync, NoGrowSync, InitialMmapSize 0/256 KiB, Mlock, StrictMode, PreLoadFreelist, wrong page-size option} at the first reopen (256) x the assignments listed for creation and for the second reopen (see schedule_sets), with a read-only open (with and without preloading) between the read-write opens and at the end; every API result and every dump is compared with the reference model, and after every open and commit the loaded free list must equal the decoder's set of unreachable pages and page accounting must be exact",
+		"rule":          "exhaustive enumeration of option schedules for one history with two reopen points (create + fill + nested bucket with content + sequence; reopen; a transaction that touches only the nested bucket and outgrows a 32 KiB map, then overwrites/deletes in the parent; reopen; nested bucket delete, drain, sequence, a rolled-back transaction; the first transaction after each reopen fails at its first I/O call): every assignment of {freelist backend, NoFreelistSync, NoGrowSync, InitialMmapSize 0/256 KiB, Mlock, StrictMode, PreLoadFreelist, wrong page-size option} at the first reopen (256) x the assignments listed for creation and for the second reopen (see schedule_sets), with a read-only open (with and without preloading) between the read-write opens and at the end; every API result and every dump is compared with the reference model, and after every open and commit the loaded free list must equal the decoder's set of unreachable pages and page accounting must be exact",
 		"samples":       []string{"create {array}, reopen {hashmap,nfs,ngs,imm=256K,strict,preload,psopt=8192}, reopen {hashmap}", "create {nfs}, read-only open without preload, reopen {array} (freelist flush commit), ..."},
 		"schedule_sets": map[string]int{"creation": len(c0s), "first_reopen": 256, "second_reopen": len(c2s), "page_sizes": len(sizes)},
 		"exhaustive":    len(errs) == 0 && skipped == 0, "harness_errors": errs, "opens": opens, "mlock_available": mlock,
